@@ -78,6 +78,34 @@ Theorem C05_manager_routes : forall evs bs i d, (i < length bs)%nat ->
 Proof. exact mgr_routes. Qed.
 Print Assumptions C05_manager_routes.
 
+(** Algebra of upserts on a strictly sorted side: the level *list* itself (not only the map it
+    represents) is independent of the path that produced it - the last write to a price wins,
+    writes to distinct prices commute, deleting an absent level leaves the list untouched,
+    insert-then-delete at an absent price restores the very list, and a batch acts only through
+    its action on the map. *)
+Theorem C05_upsert_algebra : forall s l,
+  strict_sorted s l = true ->
+  (forall p a1 a2,
+     upsert_single s (upsert_single s l (p, a1)) (p, a2) = upsert_single s l (p, a2)) /\
+  (forall x y, fst x <> fst y ->
+     upsert_single s (upsert_single s l x) y = upsert_single s (upsert_single s l y) x) /\
+  (forall p, lookup l p = None -> upsert_single s l (p, 0%Z) = l) /\
+  (forall p a, lookup l p = None -> upsert_single s (upsert_single s l (p, a)) (p, 0%Z) = l) /\
+  (forall lvs1 lvs2,
+     (forall p, spec_upsert (lookup l) lvs1 p = spec_upsert (lookup l) lvs2 p) ->
+     upsert s l lvs1 = upsert s l lvs2).
+Proof. exact upsert_algebra. Qed.
+Print Assumptions C05_upsert_algebra.
+
+(** An update without levels changes nothing but sequence and time; a snapshot erases all
+    earlier history (the resulting book does not depend on the book it is applied to). *)
+Theorem C05_heartbeat_and_snapshot : forall b b' sq t bs as_,
+  (bids (update b (Update sq t [] [])) = bids b /\ asks (update b (Update sq t [] [])) = asks b /\
+   bseq (update b (Update sq t [] [])) = sq /\ btime (update b (Update sq t [] [])) = t) /\
+  update b (Snapshot sq t bs as_) = update b' (Snapshot sq t bs as_).
+Proof. exact heartbeat_and_snapshot. Qed.
+Print Assumptions C05_heartbeat_and_snapshot.
+
 (** Link between the theorems and the correspondence check: on every well-formed case on which
     the implementation's observed output equals the model's ([corr_b]), the observed output
     satisfies the property oracle ([prop_b]) — the oracle demands no more than the model gives. *)
